@@ -25,7 +25,7 @@ use crate::{
         onehop::layout::OneHopPathLayout,
         standard::{
             mac::{ForwardingKey, HopMacCalculate, algo::mac_beta_step},
-            types::{InfoFieldFlags, exp_time_to_duration},
+            types::{HopFieldFlags, InfoFieldFlags, exp_time_to_duration},
             view::{HopFieldView, InfoFieldView},
         },
         types::PathReverseError,
@@ -118,6 +118,8 @@ impl OneHopPathView {
         };
 
         let [hop1, hop2] = self.mut_hop_fields();
+        // The second hop is built from scratch (as the model does): no flags
+        hop2.set_flags(HopFieldFlags::empty());
         hop2.set_cons_ingress(ingress_interface);
         hop2.set_cons_ingress(ingress_interface);
         hop2.set_cons_egress(0);
